@@ -178,6 +178,10 @@ def obligations(tier):
     for tree in t3:
         for name, opt in xf3(tier):
             obs.append(_mk(tree, name, opt))
+    for tree in ([[[[1]]]] if q else [[[[1]]], [[[1, 1]]], [[[1], [1]]]]):
+        for name, opt in (("flatten_unflatten", {"depth": 1, "levels": 2}), ("flattenRanks", {"depth": 1, "levels": 2}), ("flatten_unflatten", {"levels": 3}),
+                          ("swapRanks", {"depth": 2}), ("flatten_unflatten", {"depth": 2})):
+            obs.append(_mk(tree, name, opt))
     for perm in itertools.permutations(range(2)):
         obs.append(_mk(None, "swizzleRanks", {"perm": list(perm)}, box=[2, 2], S=2))
     for perm in itertools.permutations(range(3)):
